@@ -559,12 +559,14 @@ func TestC05_XMLDSig(t *testing.T) {
 		os.Mkdir(dir, 0o755)
 		defer os.RemoveAll(dir)
 		var sigxml []byte
+		var vsixClasses []string
 		flags := map[string]string{}
 		if kind == "vsix" {
 			if rapid.Bool().Draw(t, "detachcerts") {
 				flags["detach-certs"] = "true"
 			}
-			a := arts.Fixture("vsix", 0)
+			a := arts.GenVSIX(t)
+			vsixClasses = a.Classes
 			p := filepath.Join(dir, a.Name)
 			os.WriteFile(p, a.Data, 0o644)
 			if err := env.SignLib(&pipe.Req{SigType: "vsix", In: p, Key: key, Hash: h, Flags: flags}); err != nil {
@@ -589,11 +591,11 @@ func TestC05_XMLDSig(t *testing.T) {
 			}
 			sigxml, _ = os.ReadFile(p)
 		}
-		rec.Case(fmt.Sprintf("xmldsig|%s|%s|%s|%v", kind, key, h, flags), "xmldsig/"+kind+"/"+keys.Kind(key), key != "rsa2048a" || h != crypto.SHA256)
-		rec.Sample("xmldsig/"+kind, map[string]any{"kind": kind, "key": key, "digest": h.String(), "flags": flags})
+		rec.Case(fmt.Sprintf("xmldsig|%s|%s|%s|%v|%v", kind, key, h, flags, vsixClasses), "xmldsig/"+kind+"/"+keys.Kind(key), key != "rsa2048a" || h != crypto.SHA256 || len(vsixClasses) > 0)
+		rec.Sample("xmldsig/"+kind, map[string]any{"kind": kind, "key": key, "digest": h.String(), "flags": flags, "input_classes": vsixClasses})
 		ok, why, err := java.Verify(sigxml, env.Leaf[key].Raw)
 		if err != nil || !ok {
-			evid.SaveCase("TestC05_XMLDSig", map[string]any{"kind": kind, "key": key, "digest": h.String(), "error": fmt.Sprint(why, err), "doc": string(sigxml)})
+			evid.SaveCase("TestC05_XMLDSig", map[string]any{"kind": kind, "key": key, "digest": h.String(), "input_classes": vsixClasses, "error": fmt.Sprint(why, err), "doc": string(sigxml)})
 			t.Fatalf("JDK XML-DSig validator rejects relic's %s signature (key %s, %s): ok=%v %s %v", kind, key, h, ok, why, err)
 		}
 	})
